@@ -314,3 +314,74 @@ Proof.
   exists (x :: xs). split; [exact Hd|]. split; [discriminate|].
   split; [exact (digits_val_some_digits _ _ _ Ev)|]. split; [exact Ev|exact Hb].
 Qed.
+
+(* ---------- the count is additive over line-terminated pieces; blank lines never count ---------- *)
+Lemma starts_nl_app_nl a b : starts_nl (a ++ 10 :: b) = starts_nl (a ++ [10]).
+Proof. destruct a as [|c a]; reflexivity. Qed.
+
+Lemma lines_nil_iff s : lines s = [] -> s = [].
+Proof.
+  induction s as [|c s IH]; [reflexivity|]. cbn [lines].
+  destruct (c =? 10); [discriminate|].
+  destruct ((c =? 13) && starts_nl s) eqn:E.
+  - intros H. apply IH in H. subst s. apply andb_prop in E. destruct E as [_ E]. discriminate.
+  - destruct (lines s); discriminate.
+Qed.
+
+Lemma lines_app_nl a b : lines (a ++ 10 :: b) = lines (a ++ [10]) ++ lines b.
+Proof.
+  induction a as [|c a IH]; [reflexivity|].
+  cbn [app lines]. rewrite starts_nl_app_nl.
+  destruct (c =? 10); [rewrite IH; reflexivity|].
+  destruct ((c =? 13) && starts_nl (a ++ [10])); [exact IH|].
+  rewrite IH. destruct (lines (a ++ [10])) as [|l ls] eqn:El.
+  - apply lines_nil_iff in El. destruct a; discriminate.
+  - reflexivity.
+Qed.
+
+Lemma spec_count_app_nl a b : spec_count (a ++ 10 :: b) = spec_count (a ++ [10]) + spec_count b.
+Proof.
+  unfold spec_count, nlen. rewrite lines_app_nl, filter_app, app_length. lia.
+Qed.
+
+Lemma lines_chars s : forall l c, In l (lines s) -> In c l -> In c s.
+Proof.
+  induction s as [|x s IH]; intros l c Hl Hc; [destruct Hl|].
+  cbn [lines] in Hl. destruct (x =? 10).
+  - destruct Hl as [<-|Hl]; [destruct Hc|right; exact (IH l c Hl Hc)].
+  - destruct ((x =? 13) && starts_nl s); [right; exact (IH l c Hl Hc)|].
+    destruct (lines s) as [|l0 ls] eqn:El.
+    + destruct Hl as [<-|[]]. destruct Hc as [<-|[]]. left; reflexivity.
+    + destruct Hl as [<-|Hl].
+      * destruct Hc as [<-|Hc]; [left; reflexivity|right; apply (IH l0 c); [left; reflexivity|exact Hc]].
+      * right. apply (IH l c); [right; exact Hl|exact Hc].
+Qed.
+
+Lemma filter_none {A} (f : A -> bool) (l : list A) : (forall x, In x l -> f x = false) -> filter f l = [].
+Proof.
+  induction l as [|x l IH]; intros H; [reflexivity|]. cbn [filter].
+  rewrite (H x (or_introl eq_refl)). apply IH. intros y Hy. apply H. right; exact Hy.
+Qed.
+
+(* a piece made of whitespace only (blank lines, however many) contributes nothing *)
+Lemma spec_count_all_ws w : all_ws w -> spec_count w = 0.
+Proof.
+  intros Hw. unfold spec_count, nlen. rewrite filter_none; [reflexivity|].
+  intros l Hl. unfold seg_nonblank.
+  destruct (existsb (fun c => negb (is_ws c)) l) eqn:E; [|reflexivity].
+  apply existsb_exists in E. destruct E as (c & Hc & Hn).
+  pose proof (lines_chars w l c Hl Hc) as Hin.
+  unfold all_ws in Hw. rewrite Forall_forall in Hw. rewrite (Hw c Hin) in Hn. discriminate.
+Qed.
+
+(* inserting blank lines anywhere between two lines never changes the count *)
+Lemma spec_count_blank_lines_ignored a w b :
+  all_ws w -> spec_count (a ++ 10 :: w ++ 10 :: b) = spec_count (a ++ 10 :: b).
+Proof.
+  intros Hw.
+  transitivity (spec_count (a ++ [10]) + spec_count (w ++ 10 :: b)); [apply spec_count_app_nl|].
+  transitivity (spec_count (a ++ [10]) + (spec_count (w ++ [10]) + spec_count b)); [f_equal; apply spec_count_app_nl|].
+  transitivity (spec_count (a ++ [10]) + spec_count b); [|symmetry; apply spec_count_app_nl].
+  f_equal. rewrite spec_count_all_ws; [apply N.add_0_l|].
+  apply Forall_app. split; [exact Hw|]. constructor; [reflexivity|constructor].
+Qed.
